@@ -97,6 +97,13 @@ type checkerContext struct {
 	currentReceiver *receiverInfo
 }
 
+// inConstructor reports whether the code being walked is inside a function listed as @constructor
+// of the type. Constructors are functions of the package that declares the type: a function of the
+// same name in another package is not one.
+func (ctx *checkerContext) inConstructor(pkgPath string, typeName string) bool {
+	return ctx.pass.Pkg.Path() == pkgPath && ctx.constructors.Match(pkgPath, *ctx.currentFunction, typeName)
+}
+
 // receiverInfo contains information about a method's receiver
 // @immutable
 type receiverInfo struct {
@@ -200,7 +207,7 @@ func checkFieldAssignment(
 		return nil
 	}
 
-	if ctx.constructors.Match(pkgPath, *ctx.currentFunction, typeName) {
+	if ctx.inConstructor(pkgPath, typeName) {
 		return nil
 	}
 
@@ -254,7 +261,7 @@ func checkIndexAssignment(
 		return nil
 	}
 
-	if ctx.constructors.Match(pkgPath, *ctx.currentFunction, typeName) {
+	if ctx.inConstructor(pkgPath, typeName) {
 		return nil
 	}
 
@@ -330,7 +337,7 @@ func checkFieldIncDec(
 		return nil
 	}
 
-	if ctx.constructors.Match(pkgPath, *ctx.currentFunction, typeName) {
+	if ctx.inConstructor(pkgPath, typeName) {
 		return nil
 	}
 
@@ -380,7 +387,7 @@ func checkReceiverIncDec(
 	}
 
 	// Allow in constructors
-	if ctx.constructors.Match(ctx.currentReceiver.pkgPath, *ctx.currentFunction, ctx.currentReceiver.typeName) {
+	if ctx.inConstructor(ctx.currentReceiver.pkgPath, ctx.currentReceiver.typeName) {
 		return nil
 	}
 
@@ -451,7 +458,7 @@ func checkCompoundLHS(
 		return nil
 	}
 
-	if ctx.constructors.Match(pkgPath, *ctx.currentFunction, typeName) {
+	if ctx.inConstructor(pkgPath, typeName) {
 		return nil
 	}
 
@@ -499,7 +506,7 @@ func checkReceiverReassignment(
 	}
 
 	// Allow reassignment in constructors
-	if ctx.constructors.Match(ctx.currentReceiver.pkgPath, *ctx.currentFunction, ctx.currentReceiver.typeName) {
+	if ctx.inConstructor(ctx.currentReceiver.pkgPath, ctx.currentReceiver.typeName) {
 		return nil
 	}
 
